@@ -3,7 +3,8 @@
 //@ kind W
 //@ def quick NV=6 NRECON=8 VERIF_ALLOC_MAX=20
 //@ def thorough NV=8 NRECON=10 VERIF_ALLOC_MAX=24
-//@ cbmc all --unwind 12 --unwindset DOMLSSerializerImpl_procCdataSection.0:5,XMLString_patternMatch.0:22 --unwinding-assertions
+//@ cbmc quick --unwind 12 --unwindset DOMLSSerializerImpl_procCdataSection.0:5,XMLString_patternMatch.0:22 --unwinding-assertions
+//@ cbmc thorough --unwind 14 --unwindset DOMLSSerializerImpl_procCdataSection.0:5,XMLString_patternMatch.0:28 --unwinding-assertions
 //@ entry h_cdata_split
 //@ note W: complete for every CDATA node value of length <= NV over the alphabet { ']', '>', 'a', '<' } (split-cdata-sections = true); all loops (stringLen, copyString, catString, patternMatch, the split loop) are the real text, fully unwound, unwinding assertions on
 //@ note stubs (contracts/domser_stubs.inc): the XMLFormatter sink feeds a streaming reader of the output and remembers the escape mode; reportError records (severity, code, node); fMemoryManager->allocate is verif_alloc = exactly the requested number of bytes at the END of a pool object (so that one element past `len + 3 + 1` is an out-of-bounds dereference); the ArrayJanitor (release at scope exit) is dropped; procUnrepCharInCdataSection is a stub that forwards a non-empty argument to the sink as one CDATA section (what the real one does when every character is representable: unit domser_unrep_cdata)
